@@ -93,6 +93,19 @@ def harness(args, timeout=600, race=False, env=None):
     """Run a harness sub-command; returns (rc, report-dict-or-None, raw stdout, stderr)."""
     exe = HARNESS_RACE if race else HARNESS
     e = dict(os.environ)
+    # scratch files of the harness (book files, cache files) live under build/tmp, not under /tmp; what a killed
+    # run left behind is removed after two hours
+    tmpd = os.path.join(BUILD, "tmp")
+    try:
+        os.makedirs(tmpd, exist_ok=True)
+        now = time.time()
+        for n in os.listdir(tmpd):
+            q = os.path.join(tmpd, n)
+            if now - os.path.getmtime(q) > 7200:
+                shutil.rmtree(q, ignore_errors=True) if os.path.isdir(q) else os.remove(q)
+        e["TMPDIR"] = tmpd
+    except Exception:
+        pass
     if env:
         e.update(env)
     rc, out, err = run([exe] + [str(a) for a in args], timeout=timeout, env=e, cwd=BUILD)
